@@ -40,6 +40,9 @@ func TestC02(t *testing.T) {
 		defer twin.Close()
 		cfg := c02TxnCfg()
 		interesting := false
+		if rapid.IntRange(0, 7).Draw(t, "start-after-failed-restore") == 0 {
+			mc.ActFailedRestore(t, twin) // primary and twin start from the same partially restored state
+		}
 
 		// in-flight observation, armed per transaction
 		observeAt := -1
